@@ -401,6 +401,7 @@ type SpecEnv struct {
 	cs    *Contracts
 	pkg   *types.Package
 	oldSt *BState // state old() refers to (default: entry state of the unit)
+	outerSt *BState // state outer() refers to: the head of the enclosing loop's current iteration (inner-loop clauses)
 	oldFr *Frame
 	nowEnv *SpecEnv // set inside old(): the environment of the enclosing (current-state) expression
 	unfold   int  // >0: inside the body of a recursive spec function (inner applications stay uninterpreted)
